@@ -133,6 +133,6 @@ theorem sortEvents_pairwise (ax : Axis) (n : Nat) :
 
 theorem sortEvents_valid (ax : Axis) (n : Nat) : ValidOrder ax n (sortEvents ax n) :=
   ⟨sortEvents_pairwise ax n, (sortEvents_perm ax n).nodup_iff.2 (nodup_allEvents n),
-   fun e => ((sortEvents_perm ax n).mem_iff).trans mem_allEvents⟩
+   fun _ => ((sortEvents_perm ax n).mem_iff).trans mem_allEvents⟩
 
 end AdaptaVerif.Lemmas.Scanline
